@@ -1,14 +1,14 @@
 package harness
 
 import (
-	"os"
-	"regexp"
 	"context"
 	"crypto/sha256"
 	"encoding/hex"
 	"fmt"
 	"hash"
+	"os"
 	"reflect"
+	"regexp"
 	"runtime/debug"
 	"sort"
 	"strings"
@@ -77,12 +77,12 @@ type Env struct {
 	MaxSteps int
 	MaxSim   time.Duration
 
-	Viol       *Violation
-	HarnessErr string
-	OutOfSteps bool
-	Aborted    string // the run was cut short for a reason that is another property's concern
-	Livelock   string // a single goroutine ran for LivelockSteps consecutive steps
-	stop       bool
+	Viol          *Violation
+	HarnessErr    string
+	OutOfSteps    bool
+	Aborted       string // the run was cut short for a reason that is another property's concern
+	Livelock      string // a single goroutine ran for LivelockSteps consecutive steps
+	stop          bool
 	LivelockSteps int
 
 	seq      int
@@ -112,10 +112,11 @@ type ServerInst struct {
 }
 
 type ClientInst struct {
-	Name  string
-	C     client.Client
-	Log   *capLog
-	Addrs []string
+	Name           string
+	C              client.Client
+	Log            *capLog
+	Addrs          []string
+	seenReconnects int
 }
 
 func NewEnv(sim *simrt.Sim, sch *Schema, property string) (*Env, error) {
@@ -310,7 +311,7 @@ type capLog struct {
 	name  string
 }
 
-func (c *capLog) Init(logr.RuntimeInfo) {}
+func (c *capLog) Init(logr.RuntimeInfo)  {}
 func (c *capLog) Enabled(level int) bool { return level <= 3 }
 func (c *capLog) Info(level int, msg string, kv ...any) {
 	if len(c.lines) < 500 {
